@@ -3429,15 +3429,17 @@ static size_t ZBUFF_decompressContinue(ZBUFF_DCtx* zbc, void* dst, size_t* maxDs
                     size_t const neededInSize = BLOCKSIZE;   /* a block is never > BLOCKSIZE */
                     if (zbc->inBuffSize < neededInSize) {
                         free(zbc->inBuff);
-                        zbc->inBuffSize = neededInSize;
+                        zbc->inBuffSize = 0;
                         zbc->inBuff = (char*)malloc(neededInSize);
                         if (zbc->inBuff == NULL) return ERROR(memory_allocation);
+                        zbc->inBuffSize = neededInSize;
                     }
                     if (zbc->outBuffSize < neededOutSize) {
                         free(zbc->outBuff);
-                        zbc->outBuffSize = neededOutSize;
+                        zbc->outBuffSize = 0;
                         zbc->outBuff = (char*)malloc(neededOutSize);
                         if (zbc->outBuff == NULL) return ERROR(memory_allocation);
+                        zbc->outBuffSize = neededOutSize;
                 }   }
                 if (zbc->dictSize)
                     ZSTD_decompress_insertDictionary(zbc->zc, zbc->dict, zbc->dictSize);
